@@ -47,6 +47,19 @@ CONFIG = {
         'monitors': [M.mon_c02],
         'level_text': 'Theorems over all histories of any length from any chain and all pairs in uint32 x uint64: at most one receive of a pair succeeds (none if the pair was already used), a used pair stays used under every transaction type, a pair is used only if the start state listed it or a receive of it succeeded, the store key is injective and decoded headers are in range. The Go keeper is tied to the model by differential execution of receive histories over colliding pools of pairs with retries after failures, attester rotation, pausing and re-linking; the at-most-once monitor runs on the implementation trace.',
     },
+    'C03': {
+        'profiles': [('receive-matrix', 150, 16384), ('flows', 20, 500), ('mint-values', 15, 400)],
+        'rules': [(r'TX:ReceiveMessage', 'R', None), (r'TX:ReceiveMessage', 'D', None), (r'TX:ReceiveMessage', 'S', r'^(nonce|bal) ')],
+        'monitors': [M.mon_c03],
+        'level_text': 'Theorem (an iff, for all messages, attestations, submitters, states, ledgers and dependency plans): a receive succeeds exactly when the conjunction of the documented acceptance conditions holds, the mint-side conditions being consulted only for module-addressed messages; otherwise the chain, ledger and event stream are unchanged - so all combinations of violated conditions are covered at once. The Go handler is tied to the model by differential execution of a condition matrix (every subset of size <= 2 of 14 breakable conditions plus random subsets; thorough: all 2^14 subsets), each for module and non-module recipients.',
+    },
+    'C08': {
+        'profiles': [('deposit-matrix', 200, 4096), ('flows', 20, 500), ('outbound', 20, 500)],
+        'rules': [(r'TX:DepositForBurn(WithCaller)?$', 'R', r'^(ok|err|panic)')],
+        'monitors': [M.mon_c08],
+        'level_text': 'Theorem (an iff, for all inputs, states, ledgers and dependency plans, both variants): a deposit succeeds exactly when the documented preconditions hold (positive amount within the limit stored under the lower-cased token, burn token = minting denom up to case folding and a valid denom, non-zero 32-byte recipient, non-zero 32-byte messenger, both flags off, 132 <= max body size, debit and burn succeed, non-zero 32-byte caller for the with-caller variant); limit and body-size boundaries are corollaries for every limit. The Go handlers are tied to the model by differential execution of a precondition matrix x amounts around seven limits, with faithful and permissive ledgers.',
+        'assumptions': ['environment: the module account address string is a valid address (env_ok, checked by computation on every run); the minting denom is ASCII'],
+    },
     'C07': {
         'profiles': [('outbound', 60, 1500), ('flows', 25, 600), ('replace', 25, 600)],
         'rules': [(r'TX:(SendMessage|SendMessageWithCaller|DepositForBurn|DepositForBurnWithCaller|ReplaceMessage|ReplaceDepositForBurn)$', 'R', None),
@@ -78,7 +91,7 @@ CONFIG = {
         'level_text': 'Theorem: 1 <= threshold <= number of enabled attesters is preserved by every transaction of every type with any arguments by any submitter, hence along every history of any length (up to the 2^32 point where Go\'s uint32(len) wraps, stated); the six named rejections are proved to be errors without effect. The Go handlers are tied to the model by exhaustive differential execution from every start state over a universe of 4 (thorough: 5) attester strings.',
     },
     'C15': {
-        'profiles': [('admin-random', 40, 800), ('roles-matrix', 40, 324)],
+        'profiles': [('admin-random', 40, 800), ('roles-matrix', 40, 324), ('flows', 25, 600), ('replace', 20, 500)],
         'rules': [(r'TX:.*', 'S', None), (r'TX:.*', 'R', r'^(ok|err|panic)')],
         'model_monitors': [M.mon_c15],
         'level_text': 'Theorem: for every transaction type, input, state and dependency plan the store after the transaction agrees with the store before on every entry outside the documented write set (Spec/WriteDoc.v); transactions that are not accepted change nothing; collections a type does not write are unchanged as lists. Tied to the Go code twice: the tracing store service records every raw key written by every call and they must lie inside the documented set evaluated by the extracted specification for the concrete request; the per-handler write primitives are regenerated from the Go source on every run.',
